@@ -37,8 +37,8 @@ func MakeChan[T any](n int, label string) *Chan[T] {
 		panic("makechan: size out of range")
 	}
 	ch := &Chan[T]{}
-	w.nobj++
 	ch.c.Obj = Obj{Label: label, w: w}
+	w.initObj(&ch.c.Obj)
 	ch.c.cap = n
 	if n > 0 {
 		ch.c.recvVCs = make([]VC, n)
